@@ -36,6 +36,7 @@ const (
 	endQuit
 	endNoopThenData
 	endNestedMailThenData
+	endEhloMidTx
 	nEndings
 )
 
@@ -51,6 +52,7 @@ type cTx struct {
 	RcptReplies []actors.Reply
 	DataReply   actors.Reply   // reply to DATA (354 expected)
 	Final       []actors.Reply // after the final dot: one (SMTP) or one per accepted recipient (LMTP)
+	Foreign     []actors.Reply // LMTP replies naming a recipient this transaction did not send
 	SentBody    bool
 	Done        bool
 }
@@ -69,6 +71,7 @@ type world struct {
 	lmtp    bool
 	deferRj bool
 	limitN  int
+	limScope string
 	family  int
 	tgts    map[string]*actors.ScriptedTarget
 	plans   map[string][]*actors.StagePlan
@@ -184,8 +187,9 @@ func (w *world) build() error {
 	} else {
 		cfg = append(cfg, node("defer_sender_reject", "no"))
 	}
+	w.limScope = []string{"all", "source", "ip"}[s.T.Choose(st, 3)]
 	if w.limitN > 0 {
-		cfg = append(cfg, block("limits", nil, node("all", "concurrency", fmt.Sprint(w.limitN))))
+		cfg = append(cfg, block("limits", nil, node(w.limScope, "concurrency", fmt.Sprint(w.limitN))))
 	}
 	if len(checkNodes) > 0 {
 		cfg = append(cfg, block("check", nil, checkNodes...))
@@ -383,6 +387,12 @@ func (w *world) runClient(c *client) {
 			cl.Cmd("NOOP")
 		case endNestedMailThenData:
 			cl.Cmd("MAIL FROM:<other@origin.example>")
+		case endEhloMidTx:
+			// a second EHLO/LHLO resets the protocol state (RFC 5321 4.1.4)
+			s.Stat("client_ehlo_mid_transaction")
+			cl.Cmd(hello)
+			tx.Done = true
+			continue
 		}
 		tx.DataReply = cl.Cmd("DATA")
 		if tx.DataReply.Err != "" {
@@ -414,12 +424,50 @@ func (w *world) runClient(c *client) {
 				}
 			}
 		}
-		for i := 0; i < n; i++ {
+		if !w.lmtp {
 			fr := cl.ReadReply()
 			tx.Final = append(tx.Final, fr)
 			if fr.Err != "" {
 				return
 			}
+		} else {
+			// LMTP: one reply per recipient, each naming its recipient as
+			// "<addr> text". Replies are matched by address; a reply naming an
+			// address this transaction never sent is recorded separately.
+			var accepted []string
+			for i, rr := range tx.RcptReplies {
+				if rr.OK() {
+					accepted = append(accepted, tx.Rcpts[i])
+				}
+			}
+			got := map[string]actors.Reply{}
+			for len(got) < len(accepted) && len(tx.Foreign) < 8 {
+				fr := cl.ReadReply()
+				if fr.Err != "" {
+					tx.Final = append(tx.Final, fr)
+					return
+				}
+				addr := ""
+				if len(fr.Lines) > 0 {
+					t := fr.Lines[0]
+					if i := strings.Index(t, "<"); i >= 0 {
+						if j := strings.Index(t[i:], ">"); j > 0 {
+							addr = t[i+1 : i+j]
+						}
+					}
+				}
+				if contains(accepted, addr) {
+					if _, dup := got[addr]; !dup {
+						got[addr] = fr
+						continue
+					}
+				}
+				tx.Foreign = append(tx.Foreign, fr)
+			}
+			for _, r := range accepted {
+				tx.Final = append(tx.Final, got[r])
+			}
+			_ = n
 		}
 		tx.Done = true
 	}
@@ -582,6 +630,15 @@ func (w *world) oracleC03() {
 	}
 	for _, c := range w.clients {
 		for _, tx := range c.txs {
+			if len(tx.Foreign) > 0 {
+				sig := "other"
+				for _, o := range c.txs {
+					if o.Ending == endEhloMidTx {
+						sig = "greeting-mid-transaction"
+					}
+				}
+				s.Violate("C03/lmtp-reply-for-foreign-recipient/"+sig, "transaction %s got %d LMTP replies for recipients it never named, first: %s", tx.Marker, len(tx.Foreign), tx.Foreign[0].String())
+			}
 			if !tx.SentBody || len(tx.Final) == 0 {
 				// never answered: nothing may have been committed unless the
 				// reply was simply not awaited (disconnect after the final dot
@@ -684,30 +741,56 @@ func contains(xs []string, x string) bool {
 	return false
 }
 
-// oracleLimits: after all sessions ended the endpoint's `all concurrency N`
-// permits are all free again.
+// oracleLimits: after all sessions ended every permit of the endpoint's
+// limit is free again, for every source domain and client address that was
+// used (keys as the limiter sees them: normalized domain, IP).
 func (w *world) oracleLimits() {
 	s := w.s
 	s.TimeNum = 0
+	type probe struct {
+		ip  net.IP
+		dom string
+	}
+	var probes []probe
+	seen := map[string]bool{}
+	for _, c := range w.clients {
+		host, _, _ := net.SplitHostPort(c.ip)
+		for _, tx := range c.txs {
+			dom := ""
+			if i := strings.LastIndex(tx.From, "@"); i >= 0 {
+				dom = cleanAddr(tx.From)[i+1:]
+			}
+			k := host + "|" + dom
+			if !seen[k] {
+				seen[k] = true
+				probes = append(probes, probe{net.ParseIP(host), dom})
+			}
+		}
+	}
 	done := false
-	got := 0
+	var bad string
 	s.Spawn("limprobe", nil, func() {
 		g := w.endp.VerifLimits()
-		ip := net.IPv4(203, 0, 113, 99)
-		for i := 0; i < w.limitN; i++ {
-			if err := g.TakeMsg(context.Background(), ip, "probe.example"); err != nil {
-				break
+		for _, p := range probes {
+			got := 0
+			for i := 0; i < w.limitN; i++ {
+				if err := g.TakeMsg(context.Background(), p.ip, p.dom); err != nil {
+					break
+				}
+				got++
 			}
-			got++
-		}
-		for i := 0; i < got; i++ {
-			g.ReleaseMsg(ip, "probe.example")
+			for i := 0; i < got; i++ {
+				g.ReleaseMsg(p.ip, p.dom)
+			}
+			if got < w.limitN && bad == "" {
+				bad = fmt.Sprintf("only %d of %d permits could be taken for client %s / sender domain %q", got, w.limitN, p.ip, p.dom)
+			}
 		}
 		done = true
 	})
-	s.Run(time.Minute, func() bool { return done })
-	if done && got < w.limitN {
-		s.Violate("C03/permit-leak/all", "after all sessions ended only %d of %d permits of the endpoint's limit could be taken", got, w.limitN)
+	s.Run(5*time.Minute, func() bool { return done })
+	if done && bad != "" {
+		s.Violate("C03/permit-leak/"+w.limScope, "after all sessions ended %s", bad)
 	}
 }
 
